@@ -26,6 +26,7 @@ props! {
     "C02" => c02,
     "C03" => c03,
     "C04" => c04,
+    "C05" => c05,
     "C07" => c07,
     "C08" => c08,
     "C12" => c12,
